@@ -325,11 +325,16 @@ def work(spec):
     # caps per work item: the unchanged tree needs a few thousand paths per item; a change that makes responses pile up multiplies the
     # histories -- then the item stops as inconclusive after the cap instead of running for a quarter of an hour
     big = spec.get("tier") == "thorough"
-    ex = Explorer(max_paths=400000 if big else 40000, budget_s=1500 if big else 150, max_depth=2000)
+    ex = Explorer(max_paths=spec.get("max_paths", 400000 if big else 40000), budget_s=1500 if big else 150, max_depth=2000)
     ex.run(body_of(spec))
     res = worker_result(ex, samples=[{"kind": spec["kind"], "first": spec.get("first"), "state": spec.get("state"), "paths": ex.stats.paths}])
     for c in res["cexs"]:
         c["info"] = {"spec": spec, "detail": c["info"]}
+    if spec.get("hunt"):
+        # an item that is explored up to a stated number of schedules only: stopping there is its bound, not an inconclusive verdict
+        res["truncated"] = [a for a in res["aborts"] if "path bound" in a or "budget" in a]
+        res["aborts"] = [a for a in res["aborts"] if a not in res["truncated"]]
+        res["hunt_paths"] = ex.stats.paths
     return res
 
 
@@ -362,10 +367,11 @@ def main(tier, seed):
         specs.append({"kind": "step", "napps": napps, "sizes": sizes, "state": st})
     specs.append({"kind": "concurrent", "napps": 3})
     if tier == "thorough":
-        specs.append({"kind": "concurrent", "napps": 4})
+        specs.append({"kind": "concurrent", "napps": 4, "hunt": True, "max_paths": 120000})
     for sp_ in specs:
         sp_["tier"] = tier
-    rep.bounds = ["(c) 3 (thorough 4) applications whose subroutines suspend at a wait instruction: every order of starting, delivering and resuming",
+    rep.bounds = ["(c) 3 applications whose subroutines suspend at a wait instruction: every order of starting, delivering and resuming"
+                  + ("; 4 applications: the first 120000 orders only (time-boxed, not exhaustive; count in `hunting`)" if tier == "thorough" else ""),
                   f"(a) all histories of {depth} operations over {napps} applications (unit modules of 1..2 qubits), operations: init, stop, "
                   "qalloc v, qfree v, classical write + ret_reg/ret_arr, recv_epr + keep response for a free virtual qubit; faulting "
                   "subroutines included" + ("; 3 applications to depth 4" if tier == "thorough" else ""),
@@ -376,6 +382,8 @@ def main(tier, seed):
     rep.stubs = ["NetExecutor / RecStack harness; keep responses are delivered at the wait point with the lowest unused physical id"]
     for r in pmap(work, specs, chunksize=4):
         rep.merge_worker("memory", r)
+        if r.get("hunt_paths") is not None:
+            rep.extra.setdefault("hunting", []).append({"item": "concurrent, 4 applications", "schedules_explored": r["hunt_paths"], "stopped_by_bound": bool(r.get("truncated"))})
     rep.section("memory", None, specs=len(specs))
     ex = Explorer(max_paths=30)
     ex.run(make_history_body({"kind": "history", "napps": 1, "sizes": [1], "depth": 1}, falsify=True))
